@@ -146,16 +146,17 @@ Definition validate_posting (p : rposting) : decoded vposting :=
 (* ------------------------------------------------------------------ fmt of decoded `any` values *)
 Definition sjoin (sep : string) (l : list string) : string :=
   match l with [] => "" | x :: r => fold_left (fun acc y => acc ++ sep ++ y) r x end.
-(* fmt with verb %v ([sverb]=false: fmt.Sprint) or %s ([sverb]=true: bad verb for non-strings, applied elementwise) *)
-Fixpoint go_fmt (sverb : bool) (j : json) : string :=
+(* fmt with verb %v ([sverb]=false: fmt.Sprint) or %s ([sverb]=true: a bad verb for non-strings, applied elementwise).
+   A nil interface prints as %!s(<nil>) only as the operand itself ([top]); inside a slice or map it is always <nil>. *)
+Fixpoint go_fmt (sverb top : bool) (j : json) : string :=
   match j with
   | JStr s => s
-  | JNull => if sverb then "%!s(<nil>)" else "<nil>"
+  | JNull => if sverb && top then "%!s(<nil>)" else "<nil>"
   | JBool b => let t := if b then "true" else "false" in if sverb then "%!s(bool=" ++ t ++ ")" else t
   | JNum m e => let t := match f64_of_lit m e with Some f => fmt_f64 f | None => "?" end in
                 if sverb then "%!s(float64=" ++ t ++ ")" else t
-  | JArr l => "[" ++ sjoin " " (map (go_fmt sverb) l) ++ "]"
-  | JObj l => "map[" ++ sjoin " " (map (fun kv => fst kv ++ ":" ++ snd kv) (mof (map (fun kv => (fst kv, go_fmt sverb (snd kv))) l))) ++ "]"
+  | JArr l => "[" ++ sjoin " " (map (go_fmt sverb false) l) ++ "]"
+  | JObj l => "map[" ++ sjoin " " (map (fun kv => fst kv ++ ":" ++ snd kv) (mof (map (fun kv => (fst kv, go_fmt sverb false (snd kv))) l))) ++ "]"
   end.
 
 (* ------------------------------------------------------------------ vm.ScriptV1 (v2 and bulk) *)
@@ -172,7 +173,7 @@ Definition scriptv1_var (v : json) : option string :=
   match v with
   | JStr s => Some s
   | JObj m =>
-      let asset := match jfield "asset" m with Some a => go_fmt true a | None => "%!s(<nil>)" end in
+      let asset := match jfield "asset" m with Some a => go_fmt true true a | None => "%!s(<nil>)" end in
       match jfield "amount" m with
       | Some (JStr a) => Some (asset ++ " " ++ a)
       | Some (JNum n e) => match f64_of_lit n e with
@@ -181,7 +182,7 @@ Definition scriptv1_var (v : json) : option string :=
                            end
       | _ => None
       end
-  | other => Some (go_fmt false other)
+  | other => Some (go_fmt false true other)
   end.
 Definition scriptv1_to_core (s : rscript_v1) : script :=
   {| s_plain := rs_plain s; s_template := rs_template s;
@@ -245,18 +246,18 @@ Definition dec_bulk_payload (action : string) (data : option json) : decoded bul
       else ClientError EDecode                   (* json.Unmarshal(data, nil): InvalidUnmarshalError *)
   end.
 
-(* BulkElement.UnmarshalJSON: a null element never reaches it (null leaves the zero element) *)
-Definition zero_bulk := {| b_action := ""; b_ik := ""; b_data := BDelMeta "" JNull "" |}.
-Definition dec_bulk_element (j : json) : decoded (option bulk_element) :=
+(* BulkElement.UnmarshalJSON is called for a null element too (pointer-receiver Unmarshaler on an addressable slice
+   element): the inner decode of null succeeds, then the empty action has no payload type: error *)
+Definition dec_bulk_element (j : json) : decoded bulk_element :=
   match j with
-  | JNull => Ok None
+  | JNull => ClientError EDecode
   | JObj l =>
       a <- fld "action" l "" dec_string ;; ik <- fld "ik" l "" dec_string ;;
       d <- dec_bulk_payload a (jfield "data" l) ;;
-      Ok (Some {| b_action := a; b_ik := ik; b_data := d |})
+      Ok {| b_action := a; b_ik := ik; b_data := d |}
   | _ => ClientError EDecode
   end.
-Definition decode_bulk (j : json) : decoded (list (option bulk_element)) :=
+Definition decode_bulk (j : json) : decoded (list bulk_element) :=
   match j with JArr l => mapM dec_bulk_element l | JNull => Ok [] | _ => ClientError EDecode end.
 
 (* ------------------------------------------------------------------ v1 Script.ToCore *)
@@ -282,7 +283,11 @@ Definition v1_var (v : json) : decoded string :=
   | JNull => ClientError EValidation                        (* unmarshals into the map, then m["asset"] is missing *)
   | _ => Panic                                              (* json.Unmarshal(v, &rawValue) fails: panic(err) *)
   end.
+(* Go ranges over the vars MAP (unspecified order) and stops at the first error or panic: with several bad variables
+   the outcome depends on the iteration order. The model takes the worst case: Panic if any variable panics. *)
+Definition is_panic {A} (d : decoded A) : bool := match d with Panic => true | _ => false end.
 Definition v1_script_to_core (s : rscript_raw) : decoded script :=
+  if existsb (fun kv => is_panic (v1_var (snd kv))) (rr_vars s) then Panic else
   vs <- mapM (fun kv => x <- v1_var (snd kv) ;; Ok (fst kv, x)) (rr_vars s) ;;
   Ok {| s_plain := rr_plain s; s_template := rr_template s; s_vars := vs |}.
 Definition decode_v1_script (j : json) : decoded script := s <- dec_script_v1api j ;; v1_script_to_core s.
